@@ -101,12 +101,22 @@ def h_container(cx, nsurf, set_tessellator, again=None):
         objs.append(o)
         infos.append((sp, sizes, P))
     mc = multi.SurfaceContainer()
+    if again == 'copied_element':
+        # every surface was tessellated on its own before; the second one is a deep copy of such a surface
+        import copy as _copy
+        for o in objs:
+            o.sample_size_u, o.sample_size_v = 4, 3
+            o.tessellate()
+        objs[1] = _copy.deepcopy(objs[1])
     for o in objs:
         mc.add(o)
     mc.sample_size_u, mc.sample_size_v = 4, 3
     if set_tessellator:
         mc.tessellator = T.TriangularTessellate()
-    mc.tessellate()
+    if again == 'copied_element':
+        mc.tessellate(delta=False)
+    else:
+        mc.tessellate()
     if again == 'reset':
         mc.vertices
         mc.reset()
@@ -393,6 +403,8 @@ def instances(tier):
     for nsurf in (1, 2, 3):
         for st in (False, True):
             out.append(inst('container %d surfaces tessellator_set=%s' % (nsurf, st), h_container, timeout=900, nsurf=nsurf, set_tessellator=st))
+    out.append(inst('container 2 surfaces, second a deep copy of a tessellated surface', h_container, timeout=900, nsurf=2, set_tessellator=False, again='copied_element'))
+    out.append(inst('container 3 surfaces, second a deep copy of a tessellated surface', h_container, timeout=900, nsurf=3, set_tessellator=False, again='copied_element'))
     for again in ('reset', 'same_sample_size', 'add'):
         out.append(inst('container 2 surfaces tessellated again after %s' % again, h_container, timeout=900, nsurf=2, set_tessellator=False, again=again))
     for sp in sps:
